@@ -66,6 +66,9 @@ func register() {
 var c17Inputs = [][2]string{
 	{"", "QUUX-V01-CS02-with-secp256k1_XMD:SHA-256_SSWU_RO_"},
 	{"abcdef0123456789", "VERIF-C17-dst"},
+	// DSTs beyond 255 bytes take the oversize path, which hashes once more
+	{"abc", strings.Repeat("oversize-DST-", 20)},
+	{"", strings.Repeat("x", 256)},
 }
 
 func c17Source(imports []string, custom string) string {
